@@ -46,7 +46,8 @@ _PLAIN_CLASSES = {
     "Sequence": (str, list, tuple), "MutableSequence": (list,), "Mapping": (dict,), "MutableMapping": (dict,),
     "Iterable": (str, list, tuple, dict), "Collection": (str, list, tuple, dict), "Sized": (str, list, tuple, dict),
     # classes no plain sample value is an instance of
-    "Decimal": (), "NodeList": (), "Pattern": (), "IOBase": (), "bytes": (), "JSONPathMatch": (), "_Undefined": (),
+    "Decimal": (), "NodeList": (), "Pattern": (), "IOBase": (), "bytes": (bytes,), "bytearray": (), "memoryview": (), "JSONPathMatch": (), "_Undefined": (),
+    "TextIOBase": (), "BufferedIOBase": (), "RawIOBase": (), "set": (), "frozenset": (), "complex": (),
 }
 
 
@@ -437,10 +438,13 @@ class Explorer:
                 raise AnalysisError(f"partial evaluation of {self.fn.qualname}: the arguments of `{ast.unparse(e)[:60]}` are not known, and the call may change the sample")
             return UNKNOWN
         if (isinstance(e, ast.Call) and self.heap and isinstance(e.func, ast.Attribute) and not e.keywords
-                and e.func.attr in ("append", "extend", "insert", "pop", "remove", "clear", "update", "setdefault", "reverse", "popitem")
+                and e.func.attr in ("append", "extend", "insert", "pop", "remove", "clear", "update", "setdefault", "reverse", "popitem", "add", "discard",
+                                    "difference_update", "intersection_update", "symmetric_difference_update", "sort")
                 and isinstance(e.func.value, (ast.Name, ast.Attribute, ast.Subscript))):
             target_h = self.value(e.func.value, env)
-            if isinstance(target_h, (list, dict)) and not isinstance(target_h, AbstractObject):
+            if isinstance(target_h, set) and e.func.attr == "pop":
+                raise AnalysisError(f"partial evaluation of {self.fn.qualname}: `{ast.unparse(e)[:60]}` takes an arbitrary element of a set")
+            if isinstance(target_h, (list, dict, set)) and not isinstance(target_h, AbstractObject):
                 args_h = [self.value(a_, env) for a_ in e.args]
                 if any(a_ is UNKNOWN or isinstance(a_, Text) for a_ in args_h) or not hasattr(target_h, e.func.attr):
                     raise AnalysisError(f"partial evaluation of {self.fn.qualname}: `{ast.unparse(e)[:60]}` changes a container with a value that is not known")
@@ -448,6 +452,28 @@ class Explorer:
                     return getattr(target_h, e.func.attr)(*args_h)
                 except (IndexError, KeyError, ValueError, TypeError) as err:
                     raise _PathRaises(type(err).__name__) from err
+        if (isinstance(e, ast.Call) and self.heap and isinstance(e.func, ast.Attribute) and e.func.attr == "sort" and not e.args and e.keywords
+                and all(k.arg in ("key", "reverse") for k in e.keywords) and isinstance(e.func.value, (ast.Name, ast.Attribute, ast.Subscript))):
+            # `xs.sort(key=f, reverse=r)` on a list of the sample: the keys are computed by running f
+            target_s = self.value(e.func.value, env)
+            if isinstance(target_s, list) and not isinstance(target_s, AbstractObject):
+                kws_s = {k.arg: self.value(k.value, env) for k in e.keywords}
+                rev_s = kws_s.get("reverse", False)
+                key_s = kws_s.get("key")
+                if not isinstance(rev_s, bool):
+                    raise AnalysisError(f"partial evaluation of {self.fn.qualname}: `{ast.unparse(e)[:60]}` sorts in an order that is not known")
+                keys_s: List[Any] = []
+                for item_s in target_s:
+                    k_s = item_s if key_s is None else (self.apply(key_s, [item_s], e, {}) if isinstance(key_s, Callable_) else UNKNOWN)
+                    if k_s is UNKNOWN or isinstance(k_s, Text) or not isinstance(k_s, (int, float, str, tuple)):
+                        raise AnalysisError(f"partial evaluation of {self.fn.qualname}: the sort keys of `{ast.unparse(e)[:60]}` are not known")
+                    keys_s.append(k_s)
+                try:
+                    order_s = sorted(range(len(target_s)), key=lambda i_s: keys_s[i_s], reverse=rev_s)
+                except TypeError as err:
+                    raise _PathRaises("TypeError") from err
+                target_s[:] = [target_s[i_s] for i_s in order_s]
+                return None
         if (isinstance(e, ast.Call) and self.enter_with and isinstance(e.func, ast.Attribute) and isinstance(e.func.value, ast.Name) and e.func.value.id == "copy"
                 and "copy" not in env and e.func.attr in ("deepcopy", "copy") and len(e.args) == 1 and not e.keywords):
             v_c = self.value(e.args[0], env)
@@ -590,6 +616,8 @@ class Explorer:
                     repl = args[0]
                     if isinstance(repl, str) and not isinstance(repl, Text):
                         return pat3.sub(repl, args[1], *args[2:])
+                    if isinstance(repl, Callable_) and repl.kind == "func" and repl.node is not None:
+                        repl = FuncRef(repl.node)
                     if isinstance(repl, FuncRef) and self.call_function is not None:
                         unknown = []
 
@@ -668,6 +696,13 @@ class Explorer:
                     return want_a
                 if all(t_a is (not want_a) for t_a in truths):
                     return not want_a
+        if (isinstance(e, ast.Call) and self.enter_with and isinstance(e.func, ast.Name) and e.func.id == "type" and "type" not in env and not e.keywords
+                and len(e.args) == 1):
+            # the class of a plain sample value, as the name of the builtin (what the name `int` itself folds to)
+            of_t = self.value(e.args[0], env)
+            if of_t is None or (isinstance(of_t, (bool, int, float, str, list, dict, tuple)) and not isinstance(of_t, (Text, AbstractObject))):
+                if type(of_t) in (bool, int, float, str, list, dict, tuple, type(None)):
+                    return ExtRef(type(of_t).__name__)
         if (isinstance(e, ast.Call) and self.enter_with and isinstance(e.func, ast.Name) and e.func.id == "next" and "next" not in env and not e.keywords
                 and 1 <= len(e.args) <= 2 and isinstance(e.args[0], ast.Call) and isinstance(e.args[0].func, ast.Name)  # noqa: PLR2004
                 and e.args[0].func.id == "iter" and "iter" not in env and len(e.args[0].args) == 1 and not e.args[0].keywords):
@@ -911,6 +946,8 @@ class Explorer:
             if g.is_async:
                 return None
             seq = self.value(g.iter, env2)
+            if self.enter_with and ((isinstance(seq, str) and not isinstance(seq, Text)) or (isinstance(seq, dict) and not isinstance(seq, AbstractObject))):
+                seq = list(seq)  # the characters of a known string, the keys of a known mapping
             if not isinstance(seq, (tuple, list)) or len(seq) > 64:  # noqa: PLR2004
                 return None
             for item in seq:
@@ -1303,7 +1340,14 @@ class Explorer:
         if isinstance(s, ast.Expr):
             if isinstance(s.value, ast.Constant):
                 return [env]
-            self.value(s.value, env)
+            got_x = self.value(s.value, env)
+            if (self.heap and got_x is UNKNOWN and isinstance(s.value, ast.Call) and isinstance(s.value.func, ast.Attribute)
+                    and isinstance(s.value.func.value, (ast.Name, ast.Attribute, ast.Subscript))):
+                # a method called for its effect on a container of the sample, and the effect is not known: the run
+                # cannot go on as if nothing had happened
+                recv_x = self.value(s.value.func.value, env)
+                if isinstance(recv_x, (list, dict, set)) and not isinstance(recv_x, AbstractObject):
+                    raise AnalysisError(f"partial evaluation of {self.fn.qualname}: the effect of `{ast.unparse(s.value)[:60]}` on a container is not known")
             return [env]
         if isinstance(s, (ast.Assign, ast.AnnAssign, ast.Return)) and s.value is not None and self.split_conditionals:
             # a conditional expression inside the value whose test is not decided: one path for each answer
@@ -1489,6 +1533,9 @@ class Explorer:
                 raise AnalysisError(f"partial evaluation of {self.fn.qualname}: the test of a `while` loop is decided at first and then not")
         if isinstance(s, (ast.For, ast.AsyncFor)) and self.enter_loops and (isinstance(s, ast.For) or self.enter_with):
             seq = self.value(s.iter, env)
+            if self.enter_with and isinstance(s, ast.For) and (
+                    (isinstance(seq, str) and not isinstance(seq, Text)) or (isinstance(seq, dict) and not isinstance(seq, AbstractObject))):
+                seq = list(seq)  # the characters of a known string, the keys of a known mapping
             if self.heap and not isinstance(seq, (tuple, list)):
                 raise AnalysisError(f"partial evaluation of {self.fn.qualname}: a loop over `{ast.unparse(s.iter)[:60]}`, whose items are not known")
             if not isinstance(seq, (tuple, list)) and s.orelse:
